@@ -107,6 +107,11 @@ func (eng *Engine) verifyFunc(key string) *FuncReport {
 	if c.HasMod {
 		ex.frameObligations(fr, out, fr.entry, c.Modifies, key, "frame", "")
 	}
+	for j, pa := range c.Asserts {
+		if !ex.assertHit[j] && pa.Ord >= 0 {
+			eng.bindingErrors = append(eng.bindingErrors, fmt.Sprintf("%s: assert after call %s#%d never met that call (%s:%d)", key, pa.Callee, pa.Ord, pa.Clause.File, pa.Clause.Line))
+		}
+	}
 	rep.NAssumeEnd = len(ex.assumes)
 	rep.Obligations = ex.obligations
 	rep.Warnings = ex.warnings
